@@ -30,7 +30,7 @@ PROP = dict(
          "random cuts with maximum 2/3/8/64/700/5000 bytes, the same with empty binary messages and ping frames "
          "sprinkled in, and with a run of 99..158 empty messages at a random boundary; a third of the runs with a "
          "64-byte client write buffer (messages leave as continuation frames); every mode with and without a text "
-         "message at a random position; 17 fixed + 120 (thorough 3000) random cases.  Each case: replies over ws "
+         "message at a random position; 17 fixed + 120 (thorough 3000) random cases; plus large messages: one websocket message of exactly 65535 / 65536 / 65537 / 131072 bytes or a whole 200000-byte stream (thorough: 45 more, up to 1 MiB + 1 and random 60000..320000), carrying one big PUBLISH or many batched 2 KiB packets, sent unfragmented or as continuation frames of 64 / 1000 / 4096 / 70000 bytes.  Each case: replies over ws "
          "(concatenated binary payloads) = replies over tcp, bytes forwarded to an observing subscriber equal, "
          "connection ended by the broker iff a text message was sent, model read sequence = bytes sent over tcp.  "
          "non-trivial = more than one data message; distinct = distinct case lines",
